@@ -1302,18 +1302,12 @@ func checkFrameLimits(c *Ctx, w *zworld) {
 			}
 			okErr := false
 			if errEx != nil {
-				for _, r := range *errEx.Referrers() {
-					if b, ok := r.(*ssa.BinOp); ok && b.Op == token.NEQ && isNilConst(b.Y) {
-						for _, rr := range *b.Referrers() {
-							if iff, ok := rr.(*ssa.If); ok {
-								nilRet := reachFromBlock(iff.Block().Succs[0], func(in ssa.Instruction) bool {
-									r, ok := in.(*ssa.Return)
-									return ok && isNilConst(r.Results[2])
-								}, nil)
-								okErr = !nilRet
-							}
-						}
-					}
+				for _, nt := range nilTests(errEx) {
+					nilRet := reachFromBlock(nt.nonNil, func(in ssa.Instruction) bool {
+						r, ok := in.(*ssa.Return)
+						return ok && isReturn(in) && len(r.Results) == 3 && mayBeNilHere(r.Results[2])
+					}, nil)
+					okErr = !nilRet
 				}
 			}
 			c.check(okErr, "O4", "short frame is an error", p.Pos(bodyRead.Pos()), "a failed body read never returns a nil error", "a frame whose body is shorter than declared can be delivered (short) with a nil error")
